@@ -108,9 +108,23 @@ Fixpoint htrace (es : list hedit) (t : ltree) : list (option ltree) :=
     match hstep e t with Some t' => Some t' :: htrace rest t' | None => [None] end end.
 
 (* ---- comparing a model tree with an observation of the real Tree ------------------------------------
-   one record per clone: (handle, parent handle, own indices, exp(log_p), exp(log_r)) *)
+   one record per clone: (handle, parent handle, own indices, exp(log_p), exp(log_r)); o_names: the real name of
+   the clone owning each handle.
+
+   Node names are arbitrary: WHICH clone gets which name in relabel_nodes / in the graft renaming depends on
+   rustworkx' traversal order, which the model does not reproduce.  The SET of names after an edit is
+   determined by the names before it, so the comparison checks the name set after every edit and then renames
+   the model's clones as the real tree named them ([resync]) before the next edit. *)
 Definition obsnode : Type := (nat * option nat * list nat * list Q * list Q)%type.
-Record obs : Type := mkObs { o_nodes : list obsnode; o_outl : list nat; o_rootr : list Q; o_labels : list nat }.
+Record obs : Type := mkObs { o_nodes : list obsnode; o_outl : list nat; o_rootr : list Q; o_labels : list nat;
+                             o_names : list (nat * nat) }.
+
+Fixpoint resync_n (names : list (nat * nat)) (n : lnode) : lnode :=
+  match n with LNode l o p r ks =>
+    LNode (match find (fun hn => has_idx (fst hn) o) names with Some hn => snd hn | None => l end) o p r
+          (map (resync_n names) ks) end.
+Definition resync (names : list (nat * nat)) (t : ltree) : ltree :=
+  mkT (map (resync_n names) (troots t)) (rootr t) (outl t) (LTree.last t).
 
 Definition tol : Q := (1 # 100000000)%Q.
 Fixpoint vclose (a : vec) (b : list Q) : bool :=
@@ -132,11 +146,27 @@ Definition chk_tree (t : ltree) (o : obs) : bool :=
   && (length (outl t) =? length (o_outl o))
   && match troots t with [] => true | _ => vclose (rootr t) (o_rootr o) end
   && set_eqb Nat.eqb (labels t) (o_labels o).
-(* the model raises exactly when the implementation does *)
-Definition chk_opt (t : option ltree) (o : option obs) : bool :=
-  match t, o with Some t', Some o' => chk_tree t' o' | None, None => true | _, _ => false end.
-Fixpoint chk_trace (ts : list (option ltree)) (os : list (option obs)) : bool :=
-  match ts, os with [] , [] => true | t :: ts', o :: os' => chk_opt t o && chk_trace ts' os' | _, _ => false end.
+(* run a history, comparing after every edit; the model raises exactly when the implementation does *)
+Fixpoint hcheck (es : list hedit) (os : list (option obs)) (t : ltree) : bool :=
+  match es, os with
+  | [], [] => true
+  | e :: es', o :: os' =>
+      match hstep e t, o with
+      | Some t', Some ob => chk_tree t' ob && hcheck es' os' (resync (o_names ob) t')
+      | None, None => true
+      | _, _ => false end
+  | _, _ => false
+  end.
+(* per-step verdicts, for diagnosis *)
+Fixpoint hcheck_steps (es : list hedit) (os : list (option obs)) (t : ltree) : list bool :=
+  match es, os with
+  | e :: es', o :: os' =>
+      match hstep e t, o with
+      | Some t', Some ob => chk_tree t' ob :: hcheck_steps es' os' (resync (o_names ob) t')
+      | None, None => [true]
+      | _, _ => [false] end
+  | _, _ => []
+  end.
 End Conc.
 
 (* a deliberately wrong variant of TreeNode.add_data_point (p is multiplied, r is not), used only by the
